@@ -926,3 +926,27 @@ Proof.
     pose proof (call_writes_request_first cfg h fin q T id 399 w None C) as K;
     change (S 399) with LOOPFUEL in K; rewrite q_cmd_seq_of in K; exact K end.
 Qed.
+
+(* ================================================================== C10: configuration values (since the fix of F14) *)
+(* Feig::new refuses exactly the configurations whose password, currency or amount do not fit their field: no client, no call *)
+Theorem invalid_configuration_is_refused cfg ops scripts : cfg_ok cfg = false -> feig_history cfg ops scripts = None.
+Proof. intros H. unfold feig_history. rewrite H. reflexivity. Qed.
+
+(* ... and every configuration it accepts CAN be sent: the handshake, the configuration requests, the reservation of any CP437
+   token up to 60000 bytes — each is a non-empty packet that its layout reads back with exactly the configured values *)
+Theorem accepted_configuration_can_be_sent cfg : cfg_ok cfg = true ->
+  (registration_cmd cfg <> [] /\
+   forall r, dec_cmd FUEL (cmd_of "zvt::packets::Registration") (registration_cmd cfg ++ r) =
+             Ok (registration_value (c_password cfg) (c_currency cfg), r)) /\
+  (mk_cmd "zvt::packets::EndOfDay" [VInt (c_password cfg)] [] <> [] /\
+   mk_cmd "zvt::packets::Initialization" [VInt (c_password cfg)] [] <> []) /\
+  (forall tok pl, token_ok tok pl ->
+     mk_cmd "zvt::packets::Reservation" []
+       [(73, VSome (VInt (c_currency cfg))); (4, VSome (VInt (c_amount cfg))); (25, VSome (VInt 64)); (6, bmp60 tok)] <> []).
+Proof.
+  intros H. unfold cfg_ok in H. apply andb_prop in H. destruct H as [H H3]. apply andb_prop in H. destruct H as [H1 H2].
+  apply N.ltb_lt in H1, H2, H3. change (10 ^ 4) with 10000 in H2.
+  split; [exact (registration_on_the_wire cfg H1 H2)|]. split.
+  - split; [exact (proj1 (end_of_day_request_on_the_wire cfg H1))|exact (proj1 (initialization_request_on_the_wire cfg H1))].
+  - intros tok pl Ht. exact (proj1 (begin_request_on_the_wire (c_amount cfg) (c_currency cfg) tok pl H3 H2 Ht)).
+Qed.
